@@ -85,7 +85,7 @@ def never_none(t):
             t[1][1][1].startswith('uuid.uuid'):
         return True
     if t[0] == 'op' and t[1] in ('str', 'len', 'bytes', 'int', 'repr',
-                                 'concat', 'format'):
+                                 'concat', 'format', 'type'):
         return True
     return False
 
@@ -3337,6 +3337,7 @@ class PathSum(object):
                     return self.try_(t, st, fi)
         states = [st]
         ctxs = []
+        managed = None      # (object, __exit__) of an in-repo manager
         for item in n.items:
             nx = []
             for s in states:
@@ -3346,24 +3347,70 @@ class PathSum(object):
                         continue
                     self.emit(s2, Ev('enter', n, fi, s2, ctx=c))
                     s2.held.append(c)
-                    if item.optional_vars is not None:
-                        nx.extend(self.assign(item.optional_vars, c, s2, fi,
-                                              n))
-                    else:
-                        nx.append(s2)
+                    val = [(s2, c)]
+                    if len(n.items) == 1 and c[0] == 'obj' and isinstance(
+                            c[3], ClassInfo):
+                        ex = self.db.find_method(c[3], '__exit__')
+                        en = self.db.find_method(c[3], '__enter__')
+                        if ex is not None and en is not None and \
+                                ex not in self.stack and \
+                                len(self.stack) <= self.max_depth:
+                            # an in-repo context manager object: __enter__
+                            # gives the bound value, __exit__ sees how the
+                            # body ended
+                            managed = (c, ex)
+                            val = self.invoke(en, [c], {}, s2, fi, n)
+                    for s3, v in val:
+                        if s3.outcome is not None:
+                            nx.append(s3)
+                        elif item.optional_vars is not None:
+                            nx.extend(self.assign(item.optional_vars, v, s3,
+                                                  fi, n))
+                        else:
+                            nx.append(s3)
             states = nx
         live = [s for s in states if s.outcome is None]
         dead = [s for s in states if s.outcome is not None]
+        if managed is not None:
+            for s in live:
+                s.try_depth += 1    # __exit__ observes what the body raises
         outs = self.block(n.body, live, fi)
+        final = []
         for s in outs:
             # leave the contexts on every outcome
             oc, s.outcome = s.outcome, None
+            if managed is not None:
+                s.try_depth = max(0, s.try_depth - 1)
             for item in reversed(n.items):
                 if s.held:
                     c = s.held.pop()
                     self.emit(s, Ev('exit', n, fi, s, ctx=c))
-            s.outcome = oc
-        return dead + outs
+            if managed is None:
+                s.outcome = oc
+                final.append(s)
+                continue
+            c, ex = managed
+            raised = oc is not None and oc[0] == 'raise'
+            if raised:
+                xa = [c, op('type', oc[1]), oc[1],
+                      ('call', ('builtin', '<traceback>'), (), (),
+                       next(self.uid))]
+            else:
+                xa = [c, NONE, NONE, NONE]
+            for s4, rv in self.invoke(ex, xa, {}, s, fi, n):
+                if s4.outcome is not None and s4.outcome[0] == 'raise':
+                    final.append(s4)        # __exit__ itself raised
+                    continue
+                s4.outcome = None
+                if not raised:
+                    s4.outcome = oc
+                    final.append(s4)
+                    continue
+                for s5, tr in self.split(op('truth', rv), s4, n):
+                    if not tr:
+                        s5.outcome = oc     # not suppressed
+                    final.append(s5)
+        return dead + final
 
     def _exit_filter(self, ci, fi):
         """For an in-repo context-manager class without state whose
